@@ -278,6 +278,36 @@ func init() {
 				fails = append(fails, fail("C16", "wrong-key", "decryption with a different private key returns a value (%d bytes)", len(b)))
 			}
 		}
+		// … also on a value that has already been decrypted successfully (history: right key, wrong key, right key,
+		// and a by-value copy of the decrypted value), and with a modified ciphertext stored into a second envelope
+		if shared, eerr := c16Envelope(blob); eerr == nil {
+			if v, err := shared.DecryptInnerData(cookie, privArg); err != nil || v == nil {
+				fails = append(fails, fail("C16", "roundtrip", "decryption with the matching key fails on a fresh value: %v", err))
+			} else {
+				copyOf := *shared
+				for _, other := range [][]byte{h[:], flip} {
+					if clampX(other) == clampX(sk) {
+						continue
+					}
+					if v2, err := shared.DecryptInnerData(cookie, x25519.PrivateKey(other)); err == nil {
+						n := 0
+						if v2 != nil {
+							bb, _ := v2.Bytes()
+							n = len(bb)
+						}
+						fails = append(fails, fail("C16", "wrong-key:after-successful-decrypt", "a different private key returns a value (%d bytes) on an EncryptedLeaseSet that was decrypted with the right key before", n))
+					}
+					if _, err := copyOf.DecryptInnerData(cookie, x25519.PrivateKey(other)); err == nil {
+						fails = append(fails, fail("C16", "wrong-key:after-successful-decrypt", "a different private key returns a value on a copy of an EncryptedLeaseSet that was decrypted with the right key before"))
+					}
+				}
+				if v3, err := shared.DecryptInnerData(cookie, privArg); err != nil || v3 == nil {
+					fails = append(fails, fail("C16", "roundtrip:repeat", "the matching key no longer decrypts after other keys were tried: %v", err))
+				} else if b3, _ := v3.Bytes(); !bytes.Equal(b3, want) {
+					fails = append(fails, fail("C16", "roundtrip:repeat", "a repeated decryption returns different bytes"))
+				}
+			}
+		}
 		// private keys that differ only in bits X25519 discards denote the same key: recorded, not judged
 		eq := append([]byte{}, sk...)
 		eq[0] ^= 0x01
